@@ -339,6 +339,12 @@ class C11(SimCheck):
         cfg["defaultRange"] = fbits(1.0e6)
         if scn["drive"]["mode"] == "steps":
             scn["drive"]["n"] = r.choice([3, 30, 120, 400])
+        if r.random() < 0.5:
+            # a small waypoint alphabet: targets are revisited (goto T, goto U, goto T again), also at
+            # the same speed, from positions off the original line
+            scn["profile"]["waypoints"] = [list(simgen.lattice(r, -12, 12)) for _ in range(r.choice([2, 3, 3]))]
+            scn["profile"]["horizon"] = 16 * 1024
+            scn["profile"]["pTelemetry"] = 0.3
         return scn
 
     # -- observation / correspondence ---------------------------------------------------------
